@@ -320,8 +320,8 @@ impl SwiftField for Field57 {
                 let field = Field57D::parse(value)?;
                 Ok(Field57::D(field))
             }
-            None | Some("") => {
-                // No option letter given: fall back to default parse behavior
+            None => {
+                // No tag information at all (direct API use): fall back to default parse behavior
                 Self::parse(value)
             }
             Some(other) => Err(ParseError::InvalidFormat {
@@ -502,8 +502,8 @@ impl SwiftField for Field57DebtInstitution {
                 let field = Field57D::parse(value)?;
                 Ok(Field57DebtInstitution::D(field))
             }
-            None | Some("") => {
-                // No option letter given: fall back to default parse behavior
+            None => {
+                // No tag information at all (direct API use): fall back to default parse behavior
                 Self::parse(value)
             }
             Some(other) => Err(ParseError::InvalidFormat {
